@@ -1333,6 +1333,14 @@ class Interp:
         summ = self.spec.calls.get(txt)
         if summ is None and isinstance(n.func, ast.Attribute):
             summ = self.spec.calls.get('*.' + n.func.attr)
+            if summ is None:
+                # the same method reached through another receiver expression: use the (unique) contract of that method;
+                # the summary receives the actual receiver
+                cands = [k for k in self.spec.calls if k.endswith('.' + n.func.attr) and not k.startswith('*')]
+                if len(cands) == 1:
+                    summ = self.spec.calls[cands[0]]
+                    self.st.notes.append('call %s matched to the contract registered for %s' % (txt, cands[0]))
+                    txt = cands[0]
         if summ is not None:
             recv = None
             if isinstance(n.func, ast.Attribute):
